@@ -316,6 +316,17 @@ def check_bs(case, ctx):
                             ctx.ok("batch and stream agree on where values are non-finite", np.array_equal(np.isfinite(B), np.isfinite(S)), route=r2)
                     eq, why = outcome_equal(s1, s2)
                     ctx.ok("repeating the stream gives bit-identical output", eq, {"why": why}, route=r)
+                # the recording itself (rows handed over as views of the caller's arrays, the way a loop over a log does): streaming must leave it
+                # as it was - otherwise the next filter run on the same recording sees other data
+                if name in STREAMERS:
+                    def shared_():
+                        gg, aa_, mm = g.copy(), a.copy(), m.copy()
+                        cfg_ = filt.registry()[name]
+                        filt.stream(cfg_, cfg_.new(**kw), B[0], gg, aa_, mm)
+                        return [nm_ for nm_, x_, y_ in (("gyr", gg, g), ("acc", aa_, a), ("mag", mm, m)) if not np.array_equal(x_, y_, equal_nan=True)]
+                    s5 = call(shared_)
+                    if s5.ok:
+                        ctx.ok("streaming a recording row by row leaves the caller's recording as it was", not s5.value, {"changed": s5.value}, route=r2)
                 # the idiom q = f.update(q, ...): whatever object update() returns is handed straight back as the next a-priori attitude
                 if name in STREAMERS:
                     s4 = call(run_stream, name, kw, B[0], g, a, m, seed, order, False, True)
